@@ -23,9 +23,30 @@ pub fn fresh_id() -> u64 {
     IDS.fetch_add(1, Ordering::SeqCst)
 }
 
-/// A process-unique identity that is renewed whenever its owner is default-constructed.
+/// A process-unique identity that is renewed whenever its owner is default-constructed or cloned.
 #[derive(Debug)]
 pub struct Identity(pub u64);
+
+impl Clone for Identity {
+    fn clone(&self) -> Self {
+        Self::default()
+    }
+}
+
+#[cfg(feature = "serde")]
+impl serde::Serialize for Identity {
+    fn serialize<S: serde::Serializer>(&self, serializer: S) -> Result<S::Ok, S::Error> {
+        serializer.serialize_u64(self.0)
+    }
+}
+
+#[cfg(feature = "serde")]
+impl<'de> serde::Deserialize<'de> for Identity {
+    fn deserialize<D: serde::Deserializer<'de>>(deserializer: D) -> Result<Self, D::Error> {
+        let _ = <u64 as serde::Deserialize>::deserialize(deserializer)?;
+        Ok(Self::default())
+    }
+}
 
 impl Default for Identity {
     fn default() -> Self {
